@@ -159,6 +159,9 @@ static struct op base_ops[] = {
 	{NULL, NULL}
 };
 extern struct op more_ops[];
+#ifdef WITH_H5
+extern struct op h5_ops[];
+#endif
 
 int main(int argc, char** argv)
 {
@@ -182,6 +185,9 @@ int main(int argc, char** argv)
 		int found = 0;
 		for (struct op* o = base_ops; o->name && !found; o++) if (!strcmp(o->name, opname)) { o->fn(n, args); found = 1; }
 		for (struct op* o = more_ops; o->name && !found; o++) if (!strcmp(o->name, opname)) { o->fn(n, args); found = 1; }
+#ifdef WITH_H5
+		for (struct op* o = h5_ops; o->name && !found; o++) if (!strcmp(o->name, opname)) { o->fn(n, args); found = 1; }
+#endif
 		if (!found) printf("ERR unknown-op\n");
 		fflush(R); fflush(stdout);
 	}
